@@ -66,6 +66,7 @@ def run(tier, seed):
     H, D = (4, 1) if tier == "quick" else (4, 2)
     its = items(tier)
     col = stepcheck.explore(its, MONS, H, D, who_fn=lambda sp: stepcheck.default_who(sp, project=True), seed=seed)
+    col.merge(stepcheck.explore(stepcheck.edited_items(), MONS, 0, 0, seed=seed))  # runs after an earlier run and an in-place model edit
     meta = {
         "level": "model_checking",
         "rule": "every 3-task workflow over the four dependency kinds x work vectors and 4 parallel tasks x pooled/solo/mixed/dedicated/two-team layouts x task rules, "
